@@ -1,7 +1,8 @@
 (* Translation tie for the matcher of `shoot map` (C05, also C09/C15).
    [ShootGen.MapMatchGen] is written on every run by harness/go/cmd/go2gallina
    from the CURRENT text of /repo/internal/mapper/match.go (makeTypeMatch,
-   canNameMatch, matchType, mayMisConv) and types.go (Field.MatchingName); this
+   canNameMatch, matchType, mayMisConv), mismatch.go (makeTypeMismatch, makeFuncMap,
+   makeSubMap, makeSubListMap) and types.go (Field.MatchingName); this
    file proves the translated definitions equal to the model functions of
    Model/Mapper.v and Model/MapVal.v (owned by the mapper checks: imported, not
    edited) and restates C05 theorems over the translated pass.
@@ -239,7 +240,7 @@ Proof. intros. unfold makeFuncMap. apply funcloop_is_model. Qed.
 Ltac ty_shapes t := destruct t as [?|[| |?] ?|[?|[| |?] ?|?|?|? ?]|?|? ?].
 Ltac type_ops :=
   cbv beta iota zeta delta [as_pointer as_slice as_named type_elem named_obj obj_pkg obj_name pkg_path pkg_path_of
-                            strip_ptr pkg_eqb fst snd is_nil].
+                            strip_ptr pkg_eqb fst snd is_nil negb andb orb].
 
 Ltac unchanged :=
   lazymatch goal with
@@ -375,6 +376,19 @@ Proof.
   apply double_loop_ok; [|exact I]. intros s i j. apply step_match_ok.
 Qed.
 
+(* ... and by the two passes in the order MakeData runs them: the invariant behind C05_write_once /
+   C05_sound_to / C05_sound_from (exposed as C05_pass_invariant) holds of what the SOURCE computes *)
+Theorem C05_passes_invariant_src : forall W0s W0d (w : world),
+  Inv e (w_tags w) (fl_ic (w_flags w)) (w_funcs w) W0s W0d (fresh_maps (w_st w)) ->
+  exists w1 w2, makeTypeMismatch TE w = (Returned tt, w1) /\ makeTypeMatch TE CV IS IF w1 = (Returned tt, w2)
+                /\ Inv e (w_tags w) (fl_ic (w_flags w)) (w_funcs w) W0s W0d (w_st w2)
+                /\ Core (fresh_maps (w_st w)) (w_st w2).
+Proof.
+  intros W0s W0d w I. destruct (passes_are_model w) as (w1 & w2 & E1 & E2 & E3).
+  exists w1, w2. split; [exact E1|]. split; [exact E2|]. rewrite E3. unfold run_passes.
+  apply (passes_ok e (w_tags w) (fl_ic (w_flags w)) (w_funcs w) W0s W0d _ I).
+Qed.
+
 (* C05_identical_names_match / C05_tagged_name_matches over the translated canNameMatch *)
 Theorem C05_identical_names_match_src : forall l1 l2 tm ic (w : world),
   f_isget (load l1 w) = false -> f_isset (load l1 w) = false ->
@@ -406,6 +420,12 @@ Print Assumptions canNameMatch_is_model.
 Print Assumptions makeTypeMatch_is_model.
 Print Assumptions makeTypeMatch_on_model_state.
 Print Assumptions makeTypeMatch_src_always_returns.
+Print Assumptions makeFuncMap_is_model.
+Print Assumptions makeSubMap_is_model.
+Print Assumptions makeSubListMap_is_model.
+Print Assumptions makeTypeMismatch_is_model.
+Print Assumptions passes_are_model.
 Print Assumptions C05_pass_invariant_src.
+Print Assumptions C05_passes_invariant_src.
 Print Assumptions C05_identical_names_match_src.
 Print Assumptions C05_tagged_name_matches_src.
